@@ -219,6 +219,23 @@ def compare_bind(lean, impl, chk, inp, opmap=None):
             L = dict(L, out=[kv for i in idx for kv in (lean[i]["out"] if isinstance(lean[i]["out"], list) else [])])
         last = L
         chk.count("db.bind:op")
+        # model independent: a rename or a clear never re-orders the series that stay registered under the same key (registration
+        # order); evaluated for these two kinds of operation only, which work on the database object observed before them
+        opn = (inp.get("ops") or [])[n][0] if n < len(inp.get("ops") or []) else ""
+        if n > 0 and str(opn).startswith(("clear", "rename")) and "order" not in seen:
+            for w in ("A", "B"):
+                if I.get(w) is None or impl[n - 1].get(w) is None:
+                    continue
+                before, now = [r[0] for r in impl[n - 1][w]], [r[0] for r in I[w]]
+                if len(set(before)) != len(before) or len(set(now)) != len(now):
+                    continue            # duplicate keys: reported by the coherence clauses
+                common = set(before) & set(now)
+                ob, on = [k for k in before if k in common], [k for k in now if k in common]
+                if ob != on:
+                    seen.add("order")
+                    chk.fail("the series that stay registered keep their relative (registration) order in the register, listing and "
+                             "iteration when other series are cleared or renamed", dict(inp, first_difference_at_op=n, database=w),
+                             [unhx(k) for k in ob], [unhx(k) for k in on])
         d = diff_bind(L, I)
         if d is not None and d[0] not in seen:
             seen.add(d[0])
